@@ -32,7 +32,7 @@ def try_replay(prop, harness, record):
 
 # Replayers that do not look at the solver's concrete values (they replay the scenario class natively): extracting the values
 # costs a second solver run per failing harness, so it is skipped for them.
-NO_VALUES = ("c02_", "c03_", "c09_", "c12_", "c13_", "c20_", "c21_two_event_loops", "c25_release_on_drop", "c26_first_lookups",
+NO_VALUES = ("c02_", "c03_", "c09_", "c12_", "c13_", "c20_", "c21_two_event_loops", "c21_step_", "c25_release_on_drop", "c26_first_lookups",
              "c26_sequential", "c19_history")
 
 
@@ -419,6 +419,59 @@ def _replay_c25_release(prop, harness, rec):
     return {"status": st, "out": o, "detail": f"{o['stored']} values stored, {o['dropped']} dropped when the local storage was dropped"}
 
 
+@replayer("c21_step_wait_read_refused")
+@replayer("c21_step_wait_write_refused")
+def _replay_c21_refused(prop, harness, rec):
+    """A wait on a regular file is refused by epoll (EPERM); the number is closed through the hook and reused by a socket;
+    the next wait must put the socket into the epoll interest list (read from /proc/self/fdinfo)."""
+    outs = []
+    for d in (["r", "w"] if "read" in harness else ["w", "r"]):
+        r = run_case(["interest_refused", d], 30)
+        if "error" in r:
+            return {"status": "unavailable", "detail": r["error"]}
+        o = r["out"]
+        if o is None:
+            return {"status": "unavailable", "detail": f"native case crashed: {r['stderr_tail'][-200:]}"}
+        outs.append(o)
+        if not o["first_wait_failed"]:
+            return {"status": "unavailable", "out": o, "detail": "native scenario did not set up as intended (epoll accepted the regular file)"}
+        if not o["registered"]:
+            return {"status": "reproduced", "out": o,
+                    "detail": f"after a refused wait on descriptor {o['fd']}, close and reuse of the number by a socket, a wait for "
+                              f"{'read' if d == 'r' else 'write'} readiness returned {'Ok' if o['second_wait_ok'] else 'Err'} but the epoll interest list holds {o['epoll_interest']}"}
+    return {"status": "not_reproduced", "out": outs, "detail": "the reused descriptor was registered with the epoll instance in both directions"}
+
+
+@replayer("c21_step_")
+def _replay_c21_step(prop, harness, rec):
+    """One interest operation from a state built with real waits on a real socket and event loop; the epoll interest list of
+    the descriptor (/proc/self/fdinfo) is compared with the outstanding interests. Both variants of the state (readiness event
+    already delivered or not) are replayed: the step harness leaves that symbolic."""
+    import re
+    m = re.match(r"c21_step_(.+)_from_(none|read|write|both)$", harness)
+    ops = {"wait_read": "wait_read", "wait_write": "wait_write", "del_both": "del_both", "del_read": "del_read", "del_write": "del_write",
+           "close_and_reuse": "close", "hooked_close": "hooked_close", "event_delivered": "event"}
+    if not m or m.group(1) not in ops:
+        return {"status": "unavailable", "detail": "no native replayer for this step"}
+    outs = []
+    for delivered in (0, 1):
+        r = run_case(["interest_step", m.group(2), delivered, ops[m.group(1)]], 30)
+        if "error" in r:
+            return {"status": "unavailable", "detail": r["error"]}
+        o = r["out"]
+        if o is None:
+            return {"status": "unavailable", "detail": f"native case crashed: {r['stderr_tail'][-200:]}"}
+        outs.append(o)
+        if o["op_error"] or o["os_mask"] != o["expected_mask"]:
+            names = {0: "nothing", 1: "read", 4: "write", 5: "read+write"}
+            return {"status": "reproduced", "out": o,
+                    "detail": f"descriptor with {m.group(2)} interest outstanding (readiness event {'already' if delivered else 'not yet'} delivered), then "
+                              f"{ops[m.group(1)]}: the epoll instance holds {names.get(o['os_mask'], o['os_mask'])} interest for descriptor {o['fd']}, "
+                              f"the outstanding waits are {names.get(o['expected_mask'], o['expected_mask'])}"
+                              + (f"; the operation failed: {o['op_error']}" if o["op_error"] else "")}
+    return {"status": "not_reproduced", "out": outs, "detail": "the epoll interest list matched the outstanding interests in both variants"}
+
+
 @replayer("c21_two_event_loops")
 def _replay_c21_two_loops(prop, harness, rec):
     """Two real event loops: a task on one loop waits for a socket (its epoll instance registers it), later a task on the
@@ -496,7 +549,8 @@ def _replay_c19_step(prop, harness, rec):
         if cached[i][1]:
             ops.append(f"{i}s")
     kind = {"set_rcvtimeo": f"{slot}R{_tv_arg(*op_tv)}", "set_sndtimeo": f"{slot}S{_tv_arg(*op_tv)}",
-            "query_recv_limit": f"{slot}r", "query_send_limit": f"{slot}s", "close_and_reuse": f"{slot}c"}
+            "query_recv_limit": f"{slot}r", "query_send_limit": f"{slot}s", "close_and_reuse": f"{slot}c",
+            "close_interrupted_and_reuse": f"{slot}C"}
     for k, o in kind.items():
         if harness.endswith(k):
             ops.append(o)
